@@ -470,7 +470,7 @@ func f32(x interface{}) interface{} {
 
 func jsonChecks(res map[string]interface{}) (msgs []string) {
 	want := fixUTF8(hx.Norm(f32(res)))
-	for _, indent := range []int{-1, 0, 2} {
+	for _, indent := range []int{-1, 0, 2, 9} {
 		var b bytes.Buffer
 		if err := ggql.WriteJSONValue(&b, res, indent); err != nil {
 			msgs = append(msgs, fmt.Sprintf("WriteJSONValue(indent %d) error: %v", indent, err))
